@@ -30,6 +30,16 @@ def crafted_sei_sets(rng, per_combo):
                     else:
                         msgs.append(H.other_message(rng))
                 out.append((k, pos, msgs))
+    # seam family: the NAL holds no emulation-prevention byte, the message before the HDR10+ one ends in 00 00
+    # and the one after it has payload type 0..3 — removing the HDR10+ message creates a 00 00 0x sequence
+    # that must be escaped in the rewritten NAL
+    nz = lambda n: bytes(1 + rng.below(255) for _ in range(n))
+    for t in range(per_combo * 3):
+        before = (rng.choice([144, 137, 5, 129]), nz(rng.below(6)) + rng.choice([b"\x00\x00", b"\x07\x00\x00", b"\x00"]))
+        hdr = (4, H.HDR10PLUS_HEAD + nz(rng.choice([1, 8, 40, 250, 300])))
+        after = (rng.choice([0, 1, 2, 3]), nz(1 + rng.below(5)))
+        msgs = [before, hdr, after] + ([(rng.choice([144, 5]), nz(3))] if rng.chance(1, 3) else [])
+        out.append((len(msgs), 1, msgs))
     return out
 
 
